@@ -363,6 +363,60 @@ def run_batch(root, spec, base_seed, budget, thorough, scratch, nworkers):
 
 # ----------------------------------------------------------------------------- violation pipeline
 
+def oom_sites(root, binary, planpath, scratch):
+    """Call sites of the allocation(s) that were made to fail in a pinned fault-enumeration replay: the replay is
+    re-executed with dbus's own DBUS_MALLOC_BACKTRACES, the frames are symbolised, and for each failure the innermost
+    function that is not part of the allocator / list / string plumbing is named.  '' when it cannot be determined."""
+    try:
+        env = dict(os.environ, SIM_SCRATCH=scratch, SIM_KNOWN=KNOWN_IDS, DBUS_MALLOC_BACKTRACES="1")
+        exe = os.path.join(root, "build", binary)
+        pr = subprocess.run([exe, "--replay", planpath], env=env, stdout=subprocess.DEVNULL, stderr=subprocess.PIPE, timeout=120)
+        addrs_per_failure, cur = [], None
+        for line in pr.stderr.decode(errors="replace").splitlines():
+            m = re.match(r"\s+\S*%s\(\+(0x[0-9a-f]+)\)" % re.escape(binary), line)
+            if not m:
+                continue
+            if cur is None or len(cur) >= 40:
+                cur = []
+                addrs_per_failure.append(cur)
+            cur.append(m.group(1))
+        if not addrs_per_failure:
+            return "? in=?"
+        # a new backtrace starts wherever _dbus_print_backtrace is the frame: re-split after symbolising
+        flat = [a for bt in addrs_per_failure for a in bt]
+        sym = subprocess.run(["llvm-symbolizer-14", "-e", exe, "-f", "-p", "--no-inlines"] + flat, stdout=subprocess.PIPE, stderr=subprocess.DEVNULL, timeout=120)
+        frames = []
+        for l in sym.stdout.decode(errors="replace").splitlines():
+            l = l.strip()
+            if l:
+                fn, _, loc = l.partition(" at ")
+                frames.append((fn, loc))
+        # one backtrace per _dbus_print_backtrace frame; backtraces printed by _dbus_abort (assertions) are not failures
+        bts, curbt = [], None
+        for fn, loc in frames:
+            if fn == "_dbus_print_backtrace":
+                curbt = []
+                bts.append(curbt)
+            elif curbt is not None:
+                curbt.append((fn, loc))
+        sites, handlers = [], []
+        for bt in bts:
+            if bt and bt[0][0] == "_dbus_abort":
+                continue
+            h = [fn for fn, loc in bt if fn.startswith("bus_driver_handle_") and fn != "bus_driver_handle_message"]
+            handlers.append(h[-1][len("bus_driver_"):] if h else "dispatch")
+            inbus = [i for i, (fn, loc) in enumerate(bt) if re.search(r"/bus/[^/]+\.c:", loc)]
+            if inbus:
+                i = inbus[0]
+                # the bus function and what it called (stable under edits, unlike line numbers)
+                sites.append(bt[i][0] + (">" + bt[i - 1][0] if i > 0 else ""))
+            elif bt:
+                sites.append(bt[-1][0] if len(bt) < 3 else bt[2][0])
+        return "+".join(sites[:2]) + " in=" + "+".join(handlers[:2])
+    except Exception:
+        return "? in=?"
+
+
 def handle_failure(root, spec, prop, fl, thorough, scratch, known, tier):
     """gate, minimise, write replay.  returns ('violation', path, cls, prop) | ('known', entry) | ('harness', msg)"""
     binary = spec["binary"]
@@ -400,6 +454,9 @@ def handle_failure(root, spec, prop, fl, thorough, scratch, known, tier):
                 % (fl["seed"], fl["cls"], r1["cls"], r1["hash"], r2["cls"], r2["hash"]))
     cls = r1["cls"]
     optag = ("op=%s " % opkind) if opkind else ""
+    if opkind and mk and binary == "simbus":
+        site = oom_sites(root, binary, ppath, scratch)
+        optag += "site=%s " % site
     r1["detail"] = optag + (r1["detail"] or "")
     if cls in ("harness-error",):
         return ("harness", r1["detail"])
